@@ -1,12 +1,38 @@
-import Proofs.GossipLocal
+import Proofs.C17
+import PikoModel.Generated.Facts
 /-!
 # C17 — Own state is a last-write-wins map; compaction preserves live keys
 
 Model: `PikoModel/Gossip/State.lean` (`UpsertLocal`, `DeleteLocal`, `LeaveLocal`,
-`CompactLocal`).  The model is of the repaired `UpsertLocal` (D2).
+`CompactLocal`).  The model is of the repaired `UpsertLocal` (D2).  Definitions used below
+live in `Proofs/C17.lean`:
+
+* `LocalOp` = `upsert k v | delete k | compact thr | leave`; `stepLocal`/`runLocal` run one
+  operation / a history (`compactLocal = none`, the Go panic, is "unchanged" there and is shown
+  impossible for a positive threshold by `C17_compact_no_panic`); `op.key` is the key whose
+  entry the operation writes (`leftKey` for leave).
+* `refMap ops` = the reference last-write-wins map of a history (upsert ↦ `some v`,
+  delete ↦ `none`, compact/leave ↦ unchanged); `refRun m ops` the same from a start map `m`.
+* `liveValue s k` = the value `k` shows in the node's own state (`none` = absent or tombstone).
+* `OwnWF s` = the invariant of the own entry map that compaction relies on; `C17_wf_find`
+  spells it out, `C17_wf_reach` shows it for every history.
+* `deletedCount s` = the number of tombstones `CompactLocal` compares with its threshold.
+
+Every theorem is over all states (where needed: all well-formed states, which includes
+every reachable one), all keys, values, thresholds and operation lists.  Reserved keys:
+the package does not reject `_internal:left` / `_internal:compact` as user keys; the
+theorems say exactly which key must differ from which reserved key, and nothing is
+assumed about the keys the history *writes* — only the key that is *read* is restricted.
+
+"Observers that synchronise afterwards end up with the same live state" is
+`C03_caught_up_is_exact` (an observer that has caught up with the owner's version holds
+exactly the owner's entries) composed with `C17_compact` (those entries show the same live
+values as before the compaction); it is not restated here.
 -/
 namespace Piko
 open Piko.Gossip
+
+/-! ## single operations on the live map -/
 
 /-- `UpsertLocal(k, v)` makes `k` show `v` (also when `v` is empty and `k` was deleted — the
 D2 shape) and changes no other key. -/
@@ -19,8 +45,277 @@ theorem C17_delete (s : CState) (k k' : String) :
     liveValue (deleteLocal s k) k' = if k = k' then none else liveValue s k' :=
   liveValue_deleteLocal s k k'
 
-/-- non-vacuity (D2): upsert, delete, upsert of the empty value recreates the key -/
+/-- `LeaveLocal` changes the live value of no key other than `_internal:left`. -/
+theorem C17_leave (s : CState) (k : String) (hk : k ≠ leftKey) :
+    liveValue (leaveLocal s) k = liveValue s k :=
+  liveValue_leaveLocal s hk
+
+/-- `CompactLocal` (whenever it returns, i.e. does not panic) changes the live value of no
+key other than `_internal:compact`: live keys keep their value, tombstones and absent keys
+stay hidden. -/
+theorem C17_compact (s : CState) (hwf : OwnWF s) (thr : Nat) (s' : CState)
+    (hc : compactLocal s thr = some s') (k : String) (hk : k ≠ compactKey) :
+    liveValue s' k = liveValue s k :=
+  liveValue_compactLocal hwf hc hk
+
+/-! ## the invariant -/
+
+/-- `OwnWF` in terms of `find`: map keys are distinct; every entry is stored under its own
+key and is not newer than the node version; versions are pairwise distinct; a non-empty map
+has an entry carrying the node version. -/
+theorem C17_wf_find (s : CState) (hwf : OwnWF s) :
+    (own s).entries.NoDupKeys ∧
+    (∀ k e, (own s).entries.find k = some e → e.key = k ∧ e.version ≤ (own s).version) ∧
+    (∀ k1 k2 e1 e2, (own s).entries.find k1 = some e1 → (own s).entries.find k2 = some e2 →
+      e1.version = e2.version → k1 = k2) ∧
+    ((own s).entries ≠ [] → ∃ k e, (own s).entries.find k = some e ∧ e.version = (own s).version) := by
+  refine ⟨hwf.nodup, fun k e hf => ⟨hwf.find_key hf, hwf.find_le hf⟩, ?_, ?_⟩
+  · intro k1 k2 e1 e2 h1 h2 hv
+    have := hwf.inj (k1, e1) (AMap.mem_of_find h1) (k2, e2) (AMap.mem_of_find h2) hv
+    exact congrArg Prod.fst this
+  · intro hne
+    obtain ⟨p, hp, hv⟩ := hwf.top hne
+    exact ⟨p.1, p.2, AMap.find_of_mem hwf.nodup hp, hv⟩
+
+/-- The invariant holds in the initial state. -/
+theorem C17_wf_init (id addr : String) : OwnWF (init id addr) := ownWF_init id addr
+
+/-- Every operation preserves the invariant. -/
+theorem C17_wf_step (s : CState) (hwf : OwnWF s) (op : LocalOp) : OwnWF (stepLocal s op) :=
+  ownWF_stepLocal hwf op
+
+/-- The invariant holds after every history. -/
+theorem C17_wf_reach (id addr : String) (ops : List LocalOp) :
+    OwnWF (runLocal (init id addr) ops) :=
+  ownWF_runLocal (ownWF_init id addr) ops
+
+/-! ## last write wins -/
+
+/-- From any well-formed state, after any history (upserts, deletes, compactions at any
+thresholds, leaves, in any order, with any keys and values) every non-reserved key shows what
+the reference map started at the state's live values shows. -/
+theorem C17_lww_from (s : CState) (hwf : OwnWF s) (ops : List LocalOp) (k : String)
+    (hk : k ≠ leftKey ∧ k ≠ compactKey) :
+    liveValue (runLocal s ops) k = refRun (liveValue s) ops k :=
+  liveValue_runLocal hwf ops hk
+
+/-- After any history from a fresh node every non-reserved key shows its most recent
+upserted value, or nothing if it was never written or its most recent write is a delete. -/
+theorem C17_lww (id addr : String) (ops : List LocalOp) (k : String)
+    (hk : k ≠ leftKey ∧ k ≠ compactKey) :
+    liveValue (runLocal (init id addr) ops) k = refMap ops k := by
+  rw [liveValue_runLocal (ownWF_init id addr) ops hk]
+  exact refRun_congr ops (fun k' _ => liveValue_init id addr k') k hk
+
+/-- The left flag is set by `LeaveLocal` only and never cleared. -/
+theorem C17_left (id addr : String) (ops : List LocalOp) :
+    (own (runLocal (init id addr) ops)).left = decide (LocalOp.leave ∈ ops) := by
+  have : own (init id addr) = { id := id, addr := addr } := by simp [own, init]
+  rw [left_runLocal, this]
+  simp
+
+/-! ## version discipline -/
+
+/-- An upsert, delete or leave that changes the live value of some key or the left flag
+consumes exactly one version: the node version goes up by one, the entry the operation
+writes carries the new node version, that version is the maximum over the map, and every
+other entry (value, flags and version) is untouched. -/
+theorem C17_fresh_version (s : CState) (hwf : OwnWF s) (op : LocalOp)
+    (hop : ∀ thr, op ≠ .compact thr)
+    (hch : (∃ k, liveValue (stepLocal s op) k ≠ liveValue s k) ∨
+           (own (stepLocal s op)).left ≠ (own s).left) :
+    (own (stepLocal s op)).version = (own s).version + 1 ∧
+    (∃ e, (own (stepLocal s op)).entries.find op.key = some e ∧
+          e.version = (own (stepLocal s op)).version) ∧
+    (∀ k e, (own (stepLocal s op)).entries.find k = some e →
+          e.version ≤ (own (stepLocal s op)).version) ∧
+    (∀ k, k ≠ op.key → (own (stepLocal s op)).entries.find k = (own s).entries.find k) := by
+  have hwf' := ownWF_stepLocal hwf op
+  rcases stepLocal_cases s op hop with he | ⟨hf, _⟩
+  · rw [he] at hch
+    exact absurd hch (not_changed_self s)
+  · obtain ⟨e, h1, h2⟩ := hf.touched
+    exact ⟨hf.version, ⟨e, h1, by rw [h2, hf.version]⟩, fun k e hf' => hwf'.find_le hf', hf.others⟩
+
+/-- An upsert, delete or leave that changes no live value and not the left flag leaves the
+whole cluster state untouched (no version is consumed, nothing to gossip). -/
+theorem C17_noop (s : CState) (op : LocalOp) (hop : ∀ thr, op ≠ .compact thr)
+    (hsame : (∀ k, liveValue (stepLocal s op) k = liveValue s k) ∧
+             (own (stepLocal s op)).left = (own s).left) :
+    stepLocal s op = s := by
+  rcases stepLocal_cases s op hop with he | ⟨_, hch⟩
+  · exact he
+  · rcases hch with ⟨k, hk⟩ | hl
+    · exact absurd (hsame.1 k) hk
+    · exact absurd hsame.2 hl
+
+/-- Upsert of the value the key already shows: unchanged. -/
+theorem C17_noop_upsert (s : CState) (k v : String) (h : liveValue s k = some v) :
+    upsertLocal s k v = s := by
+  rcases upsertLocal_cases s k v with ⟨_, e⟩ | ⟨hne, _⟩
+  · exact e
+  · exact absurd h hne
+
+/-- Delete of an absent or already deleted key: unchanged. -/
+theorem C17_noop_delete (s : CState) (k : String) (h : liveValue s k = none) :
+    deleteLocal s k = s := by
+  rcases deleteLocal_cases s k with ⟨_, e⟩ | ⟨e0, hf, hd, _⟩
+  · exact e
+  · simp [liveValue, hf, hd] at h
+
+/-- A second leave: unchanged. -/
+theorem C17_noop_leave (s : CState) (h : (own s).left = true) : leaveLocal s = s := by
+  rcases leaveLocal_cases s with ⟨_, e⟩ | ⟨hl, _⟩
+  · exact e
+  · rw [h] at hl; cases hl
+
+/-- Compaction with fewer tombstones than the threshold: unchanged. -/
+theorem C17_noop_compact (s : CState) (thr : Nat) (h : deletedCount s < thr) :
+    compactLocal s thr = some s :=
+  compactLocal_below h
+
+/-! ## what an effective compaction does -/
+
+/-- After an effective compaction (tombstone count ≥ threshold, map non-empty) of a
+well-formed state:
+1. no entry is a tombstone;
+2. the compaction marker is present, internal, carries the new node version, and its value
+   is the decimal pre-compaction node version — which by `C17_wf_find` is the maximum entry
+   version before the compaction (what the Go code reads from the last sorted entry);
+3. every surviving entry has a version above the pre-compaction node version (so an
+   observer that applies the marker drops exactly the old generation) and at most the new
+   node version, which is strictly larger than the old one;
+4. every live entry of a key other than the marker key survives, identical up to its version
+   (in particular the `_internal:left` entry survives a compaction after leave);
+5. the relative version order of live keys is preserved;
+6. the left flag is untouched. -/
+theorem C17_compact_effects (s : CState) (hwf : OwnWF s) (thr : Nat) (s' : CState)
+    (hc : compactLocal s thr = some s') (hthr : thr ≤ deletedCount s)
+    (hne : (own s).entries ≠ []) :
+    (∀ k e, (own s').entries.find k = some e → e.deleted = false) ∧
+    (∃ m, (own s').entries.find compactKey = some m ∧ m.value = toString (own s).version ∧
+          m.internal = true ∧ m.version = (own s').version) ∧
+    ((own s).version < (own s').version ∧
+      ∀ k e, (own s').entries.find k = some e →
+        (own s).version < e.version ∧ e.version ≤ (own s').version) ∧
+    (∀ k e, k ≠ compactKey → (own s).entries.find k = some e → e.deleted = false →
+      ∃ e', (own s').entries.find k = some e' ∧ e' = { e with version := e'.version }) ∧
+    (∀ k1 k2 e1 e2 e1' e2', k1 ≠ compactKey → k2 ≠ compactKey →
+      (own s).entries.find k1 = some e1 → (own s).entries.find k2 = some e2 →
+      e1.deleted = false → e2.deleted = false → e1.version < e2.version →
+      (own s').entries.find k1 = some e1' → (own s').entries.find k2 = some e2' →
+      e1'.version < e2'.version) ∧
+    (own s').left = (own s).left := by
+  rw [compactLocal_effective hwf hthr hne] at hc
+  have hs' : s' = setOwn s (compactedNode s (own s).version) := (Option.some.inj hc).symm
+  subst hs'
+  simp only [own_setOwn]
+  refine ⟨?_, ?_, ⟨?_, ?_⟩, ?_, ?_, rfl⟩
+  · intro k e hf
+    rcases mem_compacted (AMap.mem_of_find hf) with h | ⟨_, e0, he0, h3, _, _⟩
+    · cases h; rfl
+    · have := (mem_compactKept.mp he0).2
+      simp only [compactKeeps, Bool.and_eq_true, Bool.not_eq_true'] at this
+      have h3' : e = { e0 with version := e.version } := h3
+      rw [h3']; exact this.1
+  · exact ⟨_, AMap.find_insert_self _ _ _, rfl, rfl, rfl⟩
+  · show (own s).version < (own s).version + (compactKept s).length + 1
+    omega
+  · intro k e hf
+    show _ ∧ e.version ≤ (own s).version + (compactKept s).length + 1
+    rcases mem_compacted (AMap.mem_of_find hf) with h | ⟨_, _, _, _, h4, h5⟩
+    · cases h; simp only; omega
+    · simp only at h4 h5; omega
+  · intro k e hk hf hd
+    obtain ⟨v, _, _, h3⟩ := find_compacted_live hwf (own s).version hk hf hd
+    exact ⟨_, h3, rfl⟩
+  · intro k1 k2 e1 e2 e1' e2' hk1 hk2 hf1 hf2 hd1 hd2 hlt hf1' hf2'
+    exact compacted_order hwf _ hk1 hk2 hf1 hf2 hd1 hd2 hlt hf1' hf2'
+
+/-- The model reads the own map in list order and sorts it with a stable merge sort; the Go
+code reads a `map` in random order and sorts with the unstable `sort.Slice`.  On a
+well-formed state that makes no difference: **every** arrangement of the map's entries that
+is sorted by version (`r` below: whatever Go produced) is the list the model compacts,
+because versions are pairwise distinct. -/
+theorem C17_compact_order_independent (s : CState) (hwf : OwnWF s) (r : List Entry)
+    (hperm : r.Perm (own s).entries.vals)
+    (hsorted : r.Pairwise (fun a b => a.version ≤ b.version)) :
+    r = sortByVersion (own s).entries.vals :=
+  eq_sortByVersion_of_sorted (fun _ ha _ hb hv => hwf.vals_inj ha hb hv) hperm hsorted
+
+/-! ## `CompactLocal` does not panic in production -/
+
+/-- `CompactLocal` panics (`entries[len(entries)-1]` on an empty slice — `none` in the
+model) only when the own map is empty **and** the threshold is 0. -/
+theorem C17_compact_no_panic (s : CState) (thr : Nat) (h : compactLocal s thr = none) :
+    (own s).entries = [] ∧ thr = 0 :=
+  compactLocal_eq_none h
+
+/-- The production compaction threshold (`gossip.go: compactThreshold`), regenerated from
+the Go source on every check. -/
+theorem C17_facts_compactThreshold : Facts.compactThreshold = some 100 := by decide
+
+/-- With the production threshold `CompactLocal` returns in every state. -/
+theorem C17_compact_no_panic_production (s : CState) (thr : Nat)
+    (hthr : Facts.compactThreshold = some thr) : (compactLocal s thr).isSome = true := by
+  rw [C17_facts_compactThreshold] at hthr
+  cases hthr
+  cases h : compactLocal s 100 with
+  | some _ => rfl
+  | none => have := (compactLocal_eq_none h).2; omega
+
+/-! ## non-vacuity -/
+
+/-- D2: upsert, delete, upsert of the empty value recreates the key -/
 example : liveValue (upsertLocal (deleteLocal (upsertLocal (init "n" "a") "k" "v") "k") "k" "") "k" = some "" := by
+  decide
+
+/-- the same history through `runLocal`/`refMap`, with a leave in between; a reserved key
+is written too (allowed by `C17_lww`, only the key read must be non-reserved) -/
+example :
+    liveValue (runLocal (init "n" "a")
+      [.upsert "k" "v", .delete "k", .leave, .upsert leftKey "x", .upsert "k" ""]) "k" = some "" ∧
+    refMap [.upsert "k" "v", .delete "k", .leave, .upsert leftKey "x", .upsert "k" ""] "k" = some "" ∧
+    ("k" ≠ leftKey ∧ "k" ≠ compactKey) := by
+  decide
+
+/-- versions: the effective ops of `upsert k v; upsert k v; delete k; delete k; upsert k ""`
+consume versions 1, 2, 3 and the two no-ops none -/
+example :
+    (own (runLocal (init "n" "a")
+      [.upsert "k" "v", .upsert "k" "v", .delete "k", .delete "k", .upsert "k" ""])).version = 3 ∧
+    (own (runLocal (init "n" "a")
+      [.upsert "k" "v", .upsert "k" "v", .delete "k", .delete "k", .upsert "k" ""])).entries =
+      [("k", { key := "k", value := "", version := 3 })] := by
+  decide
+
+/-- compaction: a state meeting the hypotheses of `C17_compact_effects` (one tombstone,
+threshold 1, non-empty map; well-formed by `C17_wf_reach`) … -/
+example :
+    1 ≤ deletedCount (runLocal (init "n" "a") [.upsert "k" "v", .upsert "j" "w", .delete "k", .leave]) ∧
+    (own (runLocal (init "n" "a") [.upsert "k" "v", .upsert "j" "w", .delete "k", .leave])).entries ≠ [] ∧
+    (own (runLocal (init "n" "a") [.upsert "k" "v", .upsert "j" "w", .delete "k", .leave])).version = 4 := by
+  decide
+
+/-- … and what the model computes there: `j` (old version 2) and the left marker (old
+version 4) are re-versioned 5, 6 in order, the tombstone of `k` is gone, the marker carries
+"4" at version 7.  (`simp` rather than `decide`: `List.mergeSort` is defined by well-founded
+recursion, which `decide` does not unfold.) -/
+example :
+    (compactLocal (runLocal (init "n" "a") [.upsert "k" "v", .upsert "j" "w", .delete "k", .leave]) 1).map
+        (fun s => ((own s).version, (own s).entries)) =
+      some (7, [(compactKey, { key := compactKey, value := "4", version := 7, internal := true }),
+                ("j", { key := "j", value := "w", version := 5 }),
+                (leftKey, { key := leftKey, value := "", version := 6, internal := true })]) := by
+  have h : (own (runLocal (init "n" "a") [.upsert "k" "v", .upsert "j" "w", .delete "k", .leave])) =
+      { id := "n", addr := "a", version := 4, left := true,
+        entries := [(leftKey, { key := leftKey, value := "", version := 4, internal := true }),
+                    ("k", { key := "k", value := "", version := 3, deleted := true }),
+                    ("j", { key := "j", value := "w", version := 2 })] } := by decide
+  rw [compactLocal_eq]
+  simp only [deletedCount, compactedNode, compactKept, h]
+  simp [AMap.vals, sortByVersion, List.mergeSort, List.MergeSort.Internal.splitInTwo,
+    compactKeeps, rmap, reversion, AMap.insert, AMap.erase, leftKey, compactKey]
   decide
 
 end Piko
